@@ -377,7 +377,7 @@ def max_steps(ops):
     return n
 
 
-def run_history(spec, ops, step_ticks, cb_ticks, clock0=0, ctl=None):
+def run_history(spec, ops, step_ticks, cb_ticks, clock0=0, ctl=None, nans=None):
     """run the operations on a fresh real optimiser with the fake clock; returns (per-op observations, min0).
     `ctl[j]` (optional) = [itnum|None, maxiter|None]: what callback invocation number j assigns to the
     optimiser's own attributes before it returns."""
@@ -414,6 +414,9 @@ def run_history(spec, ops, step_ticks, cb_ticks, clock0=0, ctl=None):
                 "min": flat(opt.minimizer()),
             }
             clock.advance(cb_ticks[state["j"]])
+            nb = nans[state["j"]] if (nans is not None and state["j"] < len(nans)) else None
+            if nb is not None:
+                opt.nanstop = bool(nb)  # read afresh by solve() in the next iteration
             a = ctl[state["j"]] if (ctl is not None and state["j"] < len(ctl)) else None
             if a == "raise":
                 # the callback fails part-way: its time has passed, then the exception leaves solve()
@@ -458,6 +461,7 @@ def run_history(spec, ops, step_ticks, cb_ticks, clock0=0, ctl=None):
                 out["cbs"] = cblog[ncb0:]
                 out["itnum"] = int(s.itnum)
                 out["maxiter"] = int(s.maxiter)
+                out["nanstop"] = bool(s.nanstop)
                 out["clock"] = clock.now
                 out["steps"] = state["k"]
                 out["elapsed"] = _num(s.timer.elapsed())
